@@ -67,8 +67,11 @@ def run(chk, tier):
             ks = sorted(rnd.sample(ks, cap))
         for n, k in enumerate(ks):
             pre = ["", "idleintclear"][n % 2]
-            jobs.append(dict(b, id=len(jobs), fault="interrupt", at=k, after=c03.AFTER, pre=pre))
+            jobs.append(dict(b, id=len(jobs), fault="interrupt", at=k, after=c03.AFTER, pre=pre, entry="new" if (b["gen"] == 0 and n % 3 == 2) else ""))
         jobs.append(dict(b, id=len(jobs), fault="", at=0, after=c03.AFTER, pre="idleint"))
+    # programs whose FIRST instruction has an effect (global declaration instantiation): after an Interrupt while idle not even that runs
+    for src in ("let lex0 = 5; var declared0 = 1; 2", "var declared0 = 1; declared0 = 2;", "class lex0 {}; var declared0;", "const lex0 = 1; function declared0() {}"):
+        jobs.append(dict(gen=1, src=src, id=len(jobs), fault="", at=0, after=c03.AFTER, pre="idleint"))
     with phase(chk, "deterministic-interrupts"):
         res = c03.run_jobs(binp, jobs, wd, "det", trace=True)
     for j, r in zip(jobs, res):
